@@ -234,6 +234,7 @@ func (d *decoderState) fetch() error {
 	d.baseOffset += int64(d.prevStart)
 	d.prevEnd -= d.prevStart
 	d.prevStart = 0
+	verifFetch(d, grow)
 
 	// Read more data into the internal buffer.
 	for {
